@@ -104,6 +104,13 @@ EXPORT errno_t _strcpyfld_s_chk(char *dest, rsize_t dmax, const char *src,
     orig_dmax = dmax;
     orig_dest = dest;
 
+    /* the whole field is written: it must not reach the slen characters read */
+    if (unlikely(slen > 0 && (CHK_OVRLP(dest, dmax, src, slen)))) {
+        handle_error(orig_dest, orig_dmax, "strcpyfld_s: overlapping objects",
+                     ESOVRLP);
+        return (ESOVRLP);
+    }
+
     if (dest < src) {
         overlap_bumper = src;
 
